@@ -2,6 +2,7 @@ package checks
 
 import (
 	"fmt"
+	"strings"
 
 	"verif/engine/interp"
 )
@@ -248,6 +249,10 @@ func RunC09(env *Env, rep *Report) {
 		}
 	}
 	cases = append(cases, c09TwoArgsCase("ascii", ""), c09TwoArgsCase("", "braille"), c09TwoArgsCase("custom", ""), c09TwoArgsCase("braille", "ascii"))
+	for _, first := range []bool{true, false} {
+		cases = append(cases, c09StatementAndInlineCase("braille", "", first), c09StatementAndInlineCase("", "braille", first), c09StatementAndInlineCase("", "", first), c09StatementAndInlineCase("ascii", "", first))
+	}
+	cases = append(cases, c09CRLFCase())
 	cases = append(cases, c09PairCase("", "braille"), c09PairCase("braille", ""), c09PairCase("", "custom"), c09PairCase("ascii", "custom"))
 	rep.Technique = "symbolic execution of the real text parsing, terminator logic and text emission (go/ssa) with symbolic string contents; 'already terminated' decided by the SMT string theory (z3 seq)"
 	rep.Explanation = "Bounded symbolic verification, not a proof. Texts of up to the stated number of source lines (adjacent string literals), each line an arbitrary printable-ASCII string without a double quote (an SMT String variable), with no type prefix, ascii, braille and a symbolic custom type, coming from a text statement, an inline command argument and a poryswitch text case (selected and '_' fallback), are compiled by symbolic execution of the real code. strings.HasSuffix on the symbolic content is a solver-decided fork, so both 'already ends with the terminator' and 'does not' are covered for all contents. Asserted per path: the label is defined once; one directive per source line in order; directive = the type or 'string'; the lines are the source lines with exactly the terminator the type calls for appended to the last one unless the text already ends with it."
@@ -336,6 +341,86 @@ func c09PairCase(t1, t2 string) *Case {
 			}
 		}
 		return nil
+	}
+	return cs
+}
+
+// c09StatementAndInlineCase: a text statement and an inline text with the same
+// content and the types t1 (statement) / t2 (inline); the statement comes
+// first or last. Each label must carry its own type's directive and
+// terminator.
+func c09StatementAndInlineCase(t1, t2 string, statementFirst bool) *Case {
+	atoms := &AtomTable{Coded: true}
+	sname := atoms.New(ClsUserName, "script", "names")
+	tname := atoms.New(ClsUserName, "text", "names")
+	c2 := atoms.New(ClsPlainCmd, "cmd", "cmds")
+	content := atoms.New(ClsLine, "txt", "")
+	stmt := fmt.Sprintf("text %s {\n  %s\"%s\"\n}", tname.Placeholder(), t1, content.Placeholder())
+	scr := fmt.Sprintf("script %s {\n  %s(%s\"%s\")\n}", sname.Placeholder(), c2.Placeholder(), t2, content.Placeholder())
+	src := scr + "\n" + stmt
+	if statementFirst {
+		src = stmt + "\n" + scr
+	}
+	prog := &Program{Atoms: atoms, Tops: []interface{}{&TopRaw{Text: src}}}
+	cs := &Case{Name: fmt.Sprintf("c09/statement-and-inline/%s/%s/statementFirst=%v", t1, t2, statementFirst), Prog: prog, Variants: optVariants, NonTrivial: true,
+		Shape: c09Shape{Origin: "statement-and-inline", Type: t1 + "+" + t2, Lines: 1}, MaxPaths: 64}
+	cs.Oracle = func(x *OracleCtx) *Violation {
+		for _, v := range x.Case.Variants {
+			res := x.Res[v.Name]
+			if res.Err.IsErr || res.Err.Panic != "" {
+				return &Violation{Sub: "accept", Msg: "rejected: " + interp.ToString(res.Err.Msg) + res.Err.Panic}
+			}
+			var inlineLbl interp.Value
+			for _, l := range nonBlank(outputLines(res.Out, false)) {
+				if rest, ok := trimPrefixLit(l, "\t"); ok {
+					if a, b, ok := splitFirst(rest, " "); ok && sameValue(x.C, a, c2.Val) == 1 {
+						inlineLbl = b
+					}
+				}
+			}
+			if inlineLbl == nil {
+				return &Violation{Sub: "text", Msg: "the command does not carry a label"}
+			}
+			for i, lbl := range []interp.Value{tname.Val, inlineLbl} {
+				typ := []string{t1, t2}[i]
+				want := c09Expect(x, typ, []interp.Value{content.Val})
+				got, n := sectionAfterLabel(x, res.Out, lbl)
+				if n != 1 {
+					return &Violation{Sub: "label", Msg: fmt.Sprintf("variant %s: label %s is defined %d times", v.Name, interp.ToString(lbl), n)}
+				}
+				what := "text statement"
+				if i == 1 {
+					what = "inline text"
+				}
+				if vv := expectLines(x, "text", fmt.Sprintf("variant %s: %s (type %q) under %s", v.Name, what, typ, interp.ToString(lbl)), got, want); vv != nil {
+					return vv
+				}
+			}
+		}
+		return nil
+	}
+	return cs
+}
+
+// c09CRLFCase: literals that wrap onto the next source line inside their
+// quotes, in a file with CRLF line ends: the emitted text must be that of the
+// LF file (the names are symbolic, the contents concrete).
+func c09CRLFCase() *Case {
+	atoms := &AtomTable{Coded: true}
+	tname := atoms.New(ClsUserName, "text", "names")
+	sname := atoms.New(ClsUserName, "script", "names")
+	cmd := atoms.New(ClsPlainCmd, "cmd", "cmds")
+	lf := "text " + tname.Placeholder() + " {\n  \"first part\n     second part\"\n  \"third\n part$\"\n}\nscript " + sname.Placeholder() + " {\n  " + cmd.Placeholder() + "(\"wrapped\n      inline\", ascii\"x\n y\")\n}"
+	prog := &Program{Atoms: atoms, Tops: []interface{}{&TopRaw{Text: lf}}}
+	crlf := &Program{Atoms: atoms, Tops: []interface{}{&TopRaw{Text: strings.ReplaceAll(lf, "\n", "\r\n")}}}
+	cs := &Case{Name: "c09/crlf-wrapped-literals", Prog: prog, Variants: []Variant{{Name: "lf", Opt: CompileOpts{Optimize: true}}, {Name: "crlf", Opt: CompileOpts{Optimize: true}, Prog: crlf}},
+		NonTrivial: true, Shape: c09Shape{Origin: "crlf-wrapped-literals", Lines: 2}, MaxPaths: 16}
+	cs.Oracle = func(x *OracleCtx) *Violation {
+		a, b := x.Res["lf"], x.Res["crlf"]
+		if a.Err.IsErr || b.Err.IsErr || a.Err.Panic != "" || b.Err.Panic != "" {
+			return &Violation{Sub: "accept", Msg: "rejected: " + interp.ToString(a.Err.Msg) + interp.ToString(b.Err.Msg) + a.Err.Panic + b.Err.Panic}
+		}
+		return expectLines(x, "text", "output of the file with CRLF line ends vs with LF line ends", outputLines(b.Out, false), outputLines(a.Out, false))
 	}
 	return cs
 }
